@@ -295,3 +295,18 @@ func VerifH_C14_step() {
 	}
 	vrt.Covered("btree-step-done")
 }
+
+// C14, hash-colliding distinct names ("k69209" and "k155448" have the same lookup3 hash, found by a birthday search):
+// the index must not confuse them. The records hold only (hash, heap id), so a faithful index has to disambiguate
+// through the heap; this one matches on the hash alone (known finding KF-C14-collision).
+func VerifH_C14_collision() {
+	a, b := "k69209", "k155448"
+	vrt.Assert(jenkinsHash(a) == jenkinsHash(b) && a != b, "collision-pair-still-collides") // guards the harness itself
+	bt := NewWritableBTreeV2(4096)
+	ida := vrt.U64() & 0x00FFFFFFFFFFFFFF
+	vrt.AssertNoErr(bt.InsertRecord(a, ida), "btree-insert-below-capacity-ok")
+	vrt.Covered("collision-checked")
+	vrt.Assert(!bt.HasKey(b), "colliding-absent-name-not-found")
+	_, found := bt.SearchRecord(b)
+	vrt.Assert(!found, "colliding-absent-name-not-found")
+}
